@@ -1,4 +1,5 @@
 import CoapVerif.Lemmas.OscorePlain
+import CoapVerif.Lemmas.OscoreSeq
 /-
 C14 — OSCORE protection round-trips, matches RFC 8613, and tampering is detected by the tag.
 
@@ -477,6 +478,122 @@ theorem unprotect_protect (cipher : Bytes → Bytes → Bytes) (cS cR : Ctx) (m 
   | none => simp [hc] at hid ⊢; omega
   | some c => simp [hc] at hid ⊢; omega
 
+/-! ### sequences of exchanges on one client / server pair: the association of a token (D14.15 - D14.17) -/
+
+/-- **The client's binding of a token is that of the latest request sent with it** — for every sequence of events at the
+client (`send`: it protects a request, with a fresh or a re-used token; `recv`: any datagram arrives — the genuine response,
+a late one to a superseded request, a duplicate, a forgery; a lost response is no event), by induction over the step list:
+(1) whatever binding the store holds for a token `t` is the (kid, Partial IV, nonce) of the latest successfully protected
+request with `t`; (2) right after protecting a request the store holds exactly that request's binding for its token,
+whatever was there before (a re-used token is re-bound: RFC 8613 §8.3/§8.4, §4.1.3.5.1). -/
+theorem association_tracks_latest_request (cipher : Bytes → Bytes → Bytes) (c : Ctx) (steps : List CStep) :
+    (∀ t e, sFind (clientRun cipher c [] steps) t = some e → latestRequest cipher c steps t = some e.b) ∧
+    (∀ m seq pm b, protectRequest cipher c m seq = some (pm, b) →
+      sFind (clientRun cipher c [] (steps ++ [.send m seq])) m.token = some ⟨m.token, b, isRegistration m.opts⟩ ∧
+      latestRequest cipher c (steps ++ [.send m seq]) m.token = some b) := by
+  refine ⟨fun t e he => ((SInv_clientRun cipher c steps) t e he).1, ?_⟩
+  intro m seq pm b hp
+  constructor
+  · unfold clientRun
+    rw [List.foldl_append, List.foldl_cons, List.foldl_nil, clientStep_send_some cipher c _ m seq pm b hp, sFind_sSet]
+    simp
+  · unfold latestRequest
+    rw [List.foldl_append, List.foldl_cons, List.foldl_nil, trackStep_send_some cipher c _ m seq pm b hp]
+    simp
+
+/-- **The same for libcoap's association list (M)**: for every sequence of `protect` (the tail of
+`coap_oscore_new_pdu_encrypted_lkd` for a request: association found → refreshed, else created) and `decrypt` steps (the
+association part of `coap_oscore_decrypt_pdu` for a response, verified or not), every association holds the `aad`, `nonce`
+and `partial_iv` of the latest `protect` step with its token — in particular after a re-use of the token (all three fields
+are replaced: with a stale `partial_iv` the AAD rebuilt for the response would be that of the superseded request). -/
+theorem association_tracks_latest_request_impl (steps : List M.Oscore.AStep) :
+    (∀ t a, M.Oscore.findAssoc (M.Oscore.assocRun [] steps) t = some a →
+      M.Oscore.assocLatest steps t = some (a.aad, a.nonce, a.piv)) ∧
+    (∀ t aad nonce piv o v, ∃ a,
+      M.Oscore.findAssoc (M.Oscore.assocRun [] (steps ++ [.protect t aad nonce piv o v])) t = some a ∧
+        a.aad = aad ∧ a.nonce = nonce ∧ a.piv = piv) := by
+  constructor
+  · have h0 : AInv [] (fun _ => none) := by
+      intro t a ha
+      simp [M.Oscore.findAssoc] at ha
+    exact AInv_run steps [] (fun _ => none) h0
+  · intro t aad nonce piv o v
+    unfold M.Oscore.assocRun
+    rw [List.foldl_append, List.foldl_cons, List.foldl_nil]
+    exact (findAssoc_protect _ t aad nonce piv o v t).1 rfl
+
+/-- what libcoap's client feeds the AEAD with for a response under association `a` (M: the stored nonce or one generated
+from the response's Partial IV, and an AAD **rebuilt** from the Sender ID and the stored `partial_iv`) is what §8.4 says for
+the binding ⟨Sender ID, `a.piv`, `a.nonce`⟩ (S, `unprotectResponse`) — ids ≤ 7 bytes, Partial IV ≤ 5 bytes, Common IV ≥ 13. -/
+theorem response_inputs_eq_spec (alg : Int) (civ sid rid : Bytes) (a : M.Oscore.Assoc) (rpiv : Bytes)
+    (hr : rid.length ≤ 7) (hp : rpiv.length ≤ 5) (hc : 13 ≤ civ.length) :
+    M.Oscore.responseInputs alg civ sid rid a rpiv =
+      R.ok (if rpiv = [] then a.nonce else nonce civ rid rpiv, aad alg sid a.piv) := by
+  unfold M.Oscore.responseInputs
+  rw [(aad_eq_spec alg sid a.piv).2]
+  by_cases h : rpiv = []
+  · simp [h]
+  · have : ¬ rpiv.length = 0 := fun x => h (List.eq_nil_of_length_eq_zero x)
+    simp only [this, h, if_false]
+    rw [nonce_eq_spec civ rid rpiv hr hp hc]
+
+/-- a response that does not verify changes nothing (D14.16, §8.4 "the client SHALL stop processing the response"): the
+binding of its token is still there for the genuine response — in S, and in M (`coap_oscore_decrypt_pdu` after fix 7bc4d64) -/
+theorem rejected_response_keeps_binding (cipher : Bytes → Bytes → Bytes) (c : Ctx) (st : Store) (r : Msg) :
+    ((∀ m b, (clientRecv cipher c st r).1 ≠ .ok m b) → (clientRecv cipher c st r).2 = st) ∧
+    (∀ (as : List M.Oscore.Assoc) (t : Bytes), M.Oscore.decryptAssoc as t false = as) := by
+  constructor
+  · intro h
+    unfold clientRecv at h ⊢
+    cases hf : sFind st r.token with
+    | none => rfl
+    | some e =>
+      simp only [hf] at h ⊢
+      cases hv : unprotectResponse cipher c (some e.b) r with
+      | plain => rfl
+      | rej => rfl
+      | ok m b =>
+        simp only [hv] at h
+        exact absurd rfl (h m b)
+  · intro as t
+    unfold M.Oscore.decryptAssoc
+    cases M.Oscore.findAssoc as t <;> simp
+
+/-- **Round trip over sequences.**  For every sequence of events at the client (requests with fresh and re-used tokens,
+responses lost, late, duplicated, forged — `steps` is arbitrary) and every token `t` the client holds a binding `e` for
+afterwards: (1) `e.b` is the binding of the latest request sent with `t`, that request is in the sequence, and the server
+that verifies it obtains the same message and the same binding (`unprotect_protect_request`); (2) every response the server
+protects for that request — with or without its own Partial IV, whatever the message — is accepted by the client and yields
+the server's message (`unprotect_protect_response`), and the binding is consumed unless the request was an Observe
+registration.  Matching contexts in both directions; the requests sent are encodable (sorted options, code < 256, OSCORE
+option ≤ 255 bytes). -/
+theorem sequence_roundtrip (cipher : Bytes → Bytes → Bytes) (cC cS : Ctx) (hCS : Matching cC cS) (hSC : Matching cS cC)
+    (steps : List CStep)
+    (hwf : ∀ m seq, CStep.send m seq ∈ steps →
+      m.opts.Pairwise (fun a b => a.1 ≤ b.1) ∧ m.code < 256 ∧ (∀ o ∈ m.opts, o.1 ≤ 65535 ∧ o.2.length ≤ 65804) ∧
+      (optEncode ⟨pivBytes seq, cC.idctx, some cC.sid⟩).length ≤ 255)
+    (t : Bytes) (e : Entry) (he : sFind (clientRun cipher cC [] steps) t = some e) :
+    (∃ m seq pm, CStep.send m seq ∈ steps ∧ m.token = t ∧ protectRequest cipher cC m seq = some (pm, e.b) ∧
+        latestRequest cipher cC steps t = some e.b ∧ e.keep = isRegistration m.opts ∧
+        unprotectRequest cipher cS pm = .ok m e.b) ∧
+    (∀ (rm : Msg) (rseq sepMid : Option Nat) (r : Msg), rm.token = t →
+        rm.opts.Pairwise (fun a b => a.1 ≤ b.1) → rm.code < 256 → (∀ o ∈ rm.opts, o.1 ≤ 65535 ∧ o.2.length ≤ 65804) →
+        protectResponse cipher cS e.b rm rseq sepMid = some r →
+        clientRecv cipher cC (clientRun cipher cC [] steps) r =
+          (.ok { normalize false (match rseq with | some n => pivBytes n | none => e.b.piv) rm with type := r.type, mid := r.mid } e.b,
+           if e.keep then clientRun cipher cC [] steps else sDel (clientRun cipher cC [] steps) t)) := by
+  obtain ⟨hl, m, seq, pm, hmem, htok, hp, hkeep⟩ := (SInv_clientRun cipher cC steps) t e he
+  obtain ⟨h1, h2, h3, h4⟩ := hwf m seq hmem
+  constructor
+  · exact ⟨m, seq, pm, hmem, htok, hp, hl, hkeep,
+      unprotect_protect_request cipher cC cS m seq hCS h1 h2 h3 h4 (pm, e.b) hp⟩
+  · intro rm rseq sepMid r hrt hs hc hw hr
+    have htr : r.token = t := (protectResponse_token cipher cS e.b rm rseq sepMid r hr).trans hrt
+    have hv := unprotect_protect_response cipher cS cC e.b rm rseq sepMid hSC hs hc hw r hr
+    unfold clientRecv
+    rw [htr, he]
+    simp only [hv]
+
 /-! ### Non-vacuity: concrete instances of the hypotheses -/
 
 example : (pivBytes 20).length ≤ 5 ∧ (pivBytes (2 ^ 40 - 2)).length ≤ 5 ∧ 2 ^ 40 - 2 ≤ maxSeq := by decide
@@ -551,6 +668,39 @@ example : (protectRequest (fun _ b => b) ⟨[], [1], none, 10, [1, 2], [3, 4], [
 /-- D14.3: what the recipient of a notification with Partial IV 0x012c sees -/
 example : normalize false (pivBytes 300) ⟨2, 69, 7, [9], [(6, [1]), (12, [])], [1]⟩ = ⟨2, 69, 7, [9], [(6, [1, 0x2c]), (12, [])], [1]⟩ := by
   decide
+
+/-! ### Non-vacuity of the sequence theorems -/
+
+/-- token re-use: request (seq 20), a forged datagram with that token (rejected, nothing changes), request with the same
+token (seq 21): the binding is that of request 21; `latestRequest` says the same -/
+example :
+    (sFind (clientRun (fun _ b => b) ⟨[], [1], none, 10, [1, 2], [3, 4], [5]⟩ []
+      [.send ⟨0, 1, 7, [9], [(11, [0x74])], []⟩ 20, .recv ⟨2, 68, 7, [9], [(9, [])], [1, 2, 3]⟩,
+       .send ⟨0, 1, 8, [9], [(11, [0x75])], []⟩ 21]) [9]).map (fun e => (e.b.piv, e.keep)) = some ([21], false) ∧
+    (latestRequest (fun _ b => b) ⟨[], [1], none, 10, [1, 2], [3, 4], [5]⟩
+      [.send ⟨0, 1, 7, [9], [(11, [0x74])], []⟩ 20, .send ⟨0, 1, 8, [9], [(11, [0x75])], []⟩ 21] [9]).map (·.piv) = some [21] := by
+  decide
+
+/-- the hypotheses of `sequence_roundtrip` on those requests -/
+example : ([(11, [0x74])] : List Opt).Pairwise (fun a b => a.1 ≤ b.1) ∧ (1 : Nat) < 256 ∧
+    (∀ o ∈ ([(11, [0x74])] : List Opt), o.1 ≤ 65535 ∧ o.2.length ≤ 65804) ∧
+    (optEncode ⟨pivBytes 21, none, some []⟩).length ≤ 255 := by decide
+
+/-- M: libcoap's update rule on re-use replaces aad, nonce and partial_iv and takes is_observe from the new request; a
+response that is not verified leaves the association, a verified one deletes it unless is_observe -/
+example :
+    M.Oscore.assocRun [] [.protect [9] [1] [2] [3] false 0, .decrypt [9] false, .protect [9] [4] [5] [6] true 0] =
+      [⟨[9], [4], [5], [6], true⟩] ∧
+    M.Oscore.assocRun [] [.protect [9] [1] [2] [3] false 0, .decrypt [9] true] = [] ∧
+    M.Oscore.assocRun [] [.protect [9] [1] [2] [3] true 0, .decrypt [9] true, .protect [9] [4] [5] [6] true 1] =
+      [⟨[9], [4], [5], [6], false⟩] ∧
+    M.Oscore.assocLatest [.protect [9] [1] [2] [3] false 0, .protect [8] [7] [7] [7] false 0, .protect [9] [4] [5] [6] true 0] [9] =
+      some ([4], [5], [6]) := by decide
+
+/-- D14.16: Observe 0 registers, Observe 1 (cancellation) and no Observe do not -/
+example : isRegistration [(6, []), (11, [1])] = true ∧ isRegistration [(6, [0])] = true ∧ isRegistration [(6, [1])] = false ∧
+    isRegistration [(11, [1])] = false := by decide
+
 
 /-- RFC 8613 C.1.1 `info` for the Common IV through M -/
 example : M.Oscore.composeInfo 10 [] none labelIV 13 = [0x85, 0x40, 0xf6, 0x0a, 0x62, 0x49, 0x56, 0x0d] := by decide
